@@ -1112,14 +1112,23 @@ class Event(Boolean):
             obj._param__private.values[self.name] = val
         self._post_setter(obj, val)
 
+    def _held(self, obj):
+        if obj is None:
+            return self.default
+        return obj._param__private.values.get(self.name, self.default)
+
     @instance_descriptor
     def __set__(self, obj, val):
+        held = self._held(obj)
+        completed = False
         try:
             if self._mode in ['set-reset', 'set']:
                 super().__set__(obj, val)
+            completed = True
         finally:
-            # Reset even if a watcher raised, so the Event does not stay True
-            if self._mode in ['set-reset', 'reset']:
+            # Reset even if a watcher raised, so the Event does not stay
+            # True; a value that was rejected has changed nothing
+            if self._mode in ['set-reset', 'reset'] and (completed or self._held(obj) is not held):
                 self._reset_event(obj, val)
 
 #-----------------------------------------------------------------------------
@@ -1582,12 +1591,15 @@ class Composite(Parameter):
         self._validate_attribs(val, self.attribs)
 
     def _post_setter(self, obj, val):
-        if obj is None:
+        owner = self.objtype if obj is None else obj
+        # All or nothing: every value is checked against the Parameter it
+        # is destined for before the first one is assigned
+        if isinstance(owner, Parameterized) or (isinstance(owner, type) and issubclass(owner, Parameterized)):
             for a, v in zip(self.attribs, val):
-                setattr(self.objtype, a, v)
-        else:
-            for a, v in zip(self.attribs, val):
-                setattr(obj, a, v)
+                if a in owner.param:
+                    owner.param[a]._validate(v)
+        for a, v in zip(self.attribs, val):
+            setattr(owner, a, v)
 
 #-----------------------------------------------------------------------------
 # Selector
